@@ -179,11 +179,13 @@ def eq_table(ctx, model, ci, fn, cons):
         cases.append((f'late attribute {l} on both sides, different', mk(extra={l: 'late'}), mk(extra={l: 'other'}), None))
     cases.append(('another class', mk(), mk(kind='SomethingElse'), False))
     cases.append(('not an object', mk(), 'text', None))
-    methods = {ci.name: {k: v for c in model.mro(ci) for k, v in reversed(list(c.methods.items()))}, 'SomethingElse': {}}
+    # the class is interpreted with everything its file (and the files of its bases) defines: methods, class-level constants, module-level helpers
+    methods = {'SomethingElse': {}}
+    also = tuple(dict.fromkeys(c.file for c in model.mro(ci) if c.file and c.file != ci.file))
     isa = {ci.name: {c.name for c in model.mro(ci)}}
 
     def run(a, b):
-        it = Interp.for_file(ctx.src, ci.file, isa, {}, methods=methods)
+        it = Interp.for_file(ctx.src, ci.file, isa, {}, also=also, methods=methods)
         try:
             return it.call_function(fn, [a, b], {}, Env())
         except Raised as r:
@@ -220,7 +222,7 @@ def eq_table(ctx, model, ci, fn, cons):
     hf = ci.methods.get('__hash__')
     if hf is not None:
         def run_hash(a):
-            it = Interp.for_file(ctx.src, ci.file, isa, {}, methods=methods)
+            it = Interp.for_file(ctx.src, ci.file, isa, {}, also=also, methods=methods)
             try:
                 return it.call_function(hf, [a], {}, Env())
             except Raised as r:
